@@ -15,6 +15,7 @@ func main() {
 		fmt.Println("usage: vcheck <property|selftest> [quick|thorough] [--replay path]")
 		os.Exit(2)
 	}
+	core.ApplyASLimit()
 	debug.SetGCPercent(1000) // checks allocate many short-lived codecs; trade memory for GC time
 	id := os.Args[1]
 	args := os.Args[2:]
